@@ -85,6 +85,27 @@ Theorem C10_log_sound : forall cfg ops e,
 Proof. exact log_sound. Qed.
 Print Assumptions C10_log_sound.
 
+(* Known finding F27 (not a counterexample to the statements above, which are about the SAME message and about a
+   time that is NOT newer): the first message of Noise IX - static key, certificate, payload with the peer-reported
+   time - is not authenticated when the responder acts on it.  An altered copy of a captured stage 1 (time rewritten
+   from 5 to 6, sent from underlay address 4) is a different payload with a newer time: it is taken as a new
+   handshake and tunnel 2, whose remote is the attacker's address, replaces the primary; five altered copies evict
+   the genuine tunnel 1; after a copy with time 1000 the peer's genuine re-handshake (time 50) is refused as too
+   old.  So "peer-reported time" is attacker-controlled input; the reading "a replayed, possibly altered, first
+   message never replaces the primary" is refuted. *)
+Example C10_forged_time_refuted :
+  let cfg := mkCfg [1] [] in
+  let s1 := hrun cfg hinit [RespStage1 1 [10] 7 5 [3] 1] in
+  mget 3 (hosts (hm s1)) = Some 1 /\
+  let r := hstep cfg (RespStage1 2 [11] 7 6 [3] 4) s1 in
+  mget 3 (hosts (hm (fst r))) = Some 2 /\ x_remote (hx_of (fst r) 2) = Some 4 /\ snd r = [OStage2 2 4] /\
+  let s6 := hrun cfg (fst r) [RespStage1 3 [12] 7 7 [3] 4; RespStage1 4 [13] 7 8 [3] 4; RespStage1 5 [14] 7 9 [3] 4;
+                              RespStage1 6 [15] 7 10 [3] 4] in
+  get_list (hm s6) 3 = [6; 5; 4; 3; 2] /\ mget 10 (idx (hm s6)) = None /\
+  let s7 := hrun cfg s6 [RespStage1 7 [20] 7 1000 [3] 4] in
+  hstep cfg (RespStage1 8 [21] 8 50 [3] 1) s7 = (s7, [OTest 7 4]).
+Proof. vm_compute. repeat split; reflexivity. Qed.
+
 (* Non-vacuity.  Node 1, peer certified for address 3.  Payload 1 (peer time 5) creates tunnel 1; four newer
    handshakes rotate the address to five tunnels; the replay of payload 1 is answered with the stored reply of
    tunnel 1 and changes nothing; a sixth handshake evicts tunnel 1; payload 1 is then neither held nor newer
